@@ -335,6 +335,8 @@ def native_handle_commit():
 
 def extra(rep, tier, seed, budget):
     """fact: the first number of the rendered integration pull request description is the parent id"""
+    from bounded import clone_mirror as _cm
+    _cm.integrate(rep)
     hc = native_handle_commit()
     rep.bounded.append(hc)
     if not hc['ok']:
